@@ -192,7 +192,11 @@ def observe(tc, fc, text, exc_type, exc_msg, files):
     statuses = []
     body = ''
     cl = Client(app, BaseResponse)
-    for method, path in (('GET', '/'), ('GET', '/some/deep/path/'), ('POST', '/x'), ('GET', '/clastic_assets'), ('HEAD', '/')):
+    for method, path in (('GET', '/'), ('GET', '/some/deep/path/'), ('POST', '/x'), ('GET', '/clastic_assets'), ('HEAD', '/'),
+                         # paths under the asset mount that name no asset (missing, escaping the asset directory): the
+                         # failsafe page answers them like every other path
+                         ('GET', '/clastic_assets/no-such-asset.css'), ('GET', '/clastic_assets/../x'),
+                         ('DELETE', '/clastic_assets/../../etc/passwd'), ('GET', '/clastic_assets/sub/../../flaw.py')):
         try:
             resp = cl.open(path=path, method=method, follow_redirects=False)
             statuses.append(resp.status_code)
